@@ -1510,7 +1510,13 @@ class _Scene:
         try:
             s.value = v
         except TypeError as e:
-            mine = str(e).startswith(f"The channel {s.full_label} cannot take")
+            # who refused is decided from the channels' public state, never from the wording of the message:
+            # the sender checks its own hint first (strict ∧ hinted ∧ data ∧ not valid_value)
+            from pyiron_workflow.channels import NOT_DATA
+            from pyiron_workflow.type_hinting import valid_value
+
+            mine = bool(s.strict_hints and s.type_hint is not None and v is not NOT_DATA
+                        and not valid_value(v, s.type_hint))
             return "sender-rejects" if (mine or not self.value_link) else "receiver-rejects"
         except Exception as e:  # noqa: BLE001
             return f"EXC:{type(e).__name__}"
